@@ -27,13 +27,13 @@ def to_scenario(i, m, env, seed):
               dict(name="q2", parent=1, prio=100, gq=1000, gl=-1, gw=2, cq=-1, cl=-1, mq=-1, ml=-1, minRtP=0, minRtR=0)]
     jobs, pods = [], []
     for k, p in enumerate(m["pods"]):
-        jobs.append(dict(name="j%d" % (k + 1), queue=2 + (k % 2), prio=50, preempt=1, min=1, age=600 + 60 * k, lastStart=(600 if p["st"] != "pending" else -1), shape=0))
+        jobs.append(dict(name="j%d" % (k + 1), queue=2 + (k % 2), prio=50, preempt=1, min=1, age=600 + 60 * k, lastStart=(600 if p["st"] != "pending" else -1), shape=0, subs=[], topo="", topoReq=0))
         rec = dict(KIND[p["kind"]])
         groups = []
         if p["st"] != "pending" and rec["devs"] >= 1:
             groups = ["g%d" % (k + 1)] + (["g%d" % (k + 1 + len(m["pods"]))] if rec["devs"] == 2 else [])
         rec.update(name="j%d-p1" % (k + 1), job=k + 1, phase="P" if p["st"] == "pending" else "R", node=p["node"],
-                   term=1 if p["st"] == "terminating" else 0, groups=groups, sel={}, affIn={}, affNot={}, tols=[], labels={}, podAff=[], podAnt=[])
+                   term=1 if p["st"] == "terminating" else 0, groups=groups, sub=0, initCpu=0, ovhCpu=0, sel={}, affIn={}, affNot={}, tols=[], labels={}, podAff=[], podAnt=[])
         pods.append(rec)
     cfg = dict(placement=["binpack", "spread"][i % 2], consolidation=i % 3 != 0 and 1 or 0, signatures=i % 2, consReclaim=0, satMult=1000, cycles=2,
                env=env, bindFail=[2] if i % 5 == 0 else [], evictFail=[], fullHier=1, actions="")
